@@ -178,3 +178,10 @@ def is_setter(fnode):
         if isinstance(d, ast.Attribute) and d.attr == 'setter':
             return True
     return False
+
+
+def is_static(fnode):
+    for d in fnode.decorator_list:
+        if isinstance(d, ast.Name) and d.id in ('staticmethod',):
+            return True
+    return False
